@@ -167,6 +167,18 @@ def fix_scenario(exe, shim, root, seed, stats, tier):
     for c in lost:
         if c.startswith('P'): fx.remove_parity(a, int(c[1:]))
         else: fx.wipe_disk(a, c)
+    # sometimes: a first fix could not rebuild everything (more damage than parities in some stripes) and left
+    # *.unrecoverable files behind; the fix that is interrupted below starts from that state
+    prior = False
+    if rng.chance(1, 3):
+        lay0 = fx.Layout(a, fx.decode(a))
+        for pos in sorted(lay0.by_pos)[:1 + rng.below(3)]:
+            blks = [b for b in lay0.by_pos[pos] if os.path.isfile(a.path(b['disk'], os.fsdecode(b['sub'])))]
+            for b in blks[:N + 1]:
+                try: fx.flip_data_block(a, rng, b)
+                except OSError: pass
+        a.cmd('fix')
+        prior = True
     backup = root + '.bak'
     shutil.copytree(a.root, backup, symlinks=True)
     total, r0 = count_calls(a, shim, 'fix', [])
@@ -179,17 +191,20 @@ def fix_scenario(exe, shim, root, seed, stats, tier):
     if tier != 'thorough' and len(ks) > 8:
         ks = sorted(set([1, total] + [1 + rng.below(total) for _ in range(6)]))
     for k in ks:
-        mode = rng.choice(['before', 'after', 'mid'])
+        mode = rng.choice(['before', 'after', 'mid', 'sigint'])
         shutil.rmtree(a.root); shutil.copytree(backup, a.root, symlinks=True)
-        r = a.cmd('fix', env={'LD_PRELOAD': shim, 'VERIF_KILL': '%d:%s' % (k, mode)}, uselog=False)
+        fenv = {'LD_PRELOAD': shim}
+        if mode == 'sigint': fenv['VERIF_SIGNAL'] = '%d:%d' % (k, signal.SIGINT)
+        else: fenv['VERIF_KILL'] = '%d:%s' % (k, mode)
+        r = a.cmd('fix', env=fenv, uselog=False)
         stats['runs'] += 1
         stats['modes']['fix-' + mode] = stats['modes'].get('fix-' + mode, 0) + 1
-        if r.rc != -9:
+        if mode != 'sigint' and r.rc != -9:
             stats['not_fired'] += 1
             continue
         r2 = a.cmd('fix')
         now = a.snapshot()
-        desc = '%s: fix killed %s state-changing call %d of %d, then run again' % (cfg, mode, k, total)
+        desc = '%s%s: fix %s state-changing call %d of %d, then run again' % (cfg, ' (after an earlier fix that left unrecoverable files)' if prior else '', 'stopped by SIGINT at' if mode == 'sigint' else 'killed ' + mode, k, total)
         problem = None
         for key, v in ref.items():
             w = now.get(key)
@@ -199,6 +214,13 @@ def fix_scenario(exe, shim, root, seed, stats, tier):
                 problem = '%s/%r has other bytes than after an uninterrupted fix' % key; break
             if v[0] == 'l' and v[1] != w[1]:
                 problem = '%s/%r link differs from an uninterrupted fix' % key; break
+        # the *.unrecoverable copies keep what could be saved: an interrupted and re-run fix must not lose more of them
+        if not problem:
+            for key, v in ref.items():
+                if key[1].endswith('.unrecoverable') and v[0] == 'f':
+                    w = now.get(key)
+                    if w is None or w[0] != 'f' or len(w[1]) < len(v[1]):
+                        problem = '%s/%r (what an uninterrupted fix keeps of an unrecoverable file) is %s after the interrupted and re-run fix' % (key[0], key[1], 'gone' if w is None else 'shorter (%d < %d bytes)' % (len(w[1]), len(v[1]))); break
         extra = [k2 for k2 in now if k2 not in ref and not k2[1].endswith('.unrecoverable')]
         if not problem and extra:
             problem = 'extra entries after the re-run fix: %s' % extra[:2]
